@@ -7,8 +7,10 @@
 package main
 
 import (
+	"bufio"
 	"bytes"
 	"context"
+	"encoding/json"
 	"fmt"
 	"io"
 	"net/http"
@@ -398,12 +400,16 @@ func (r runResult) key() string {
 type raceLog struct {
 	prefix string
 	offs   map[string]int64
+	own    bool // only the file of this process
 }
 
 // new race-detector reports with lura frames since the last call
 func (l *raceLog) fresh() []string {
 	var found []string
 	files, _ := filepath.Glob(l.prefix + ".*")
+	if l.own {
+		files = []string{fmt.Sprintf("%s.%d", l.prefix, os.Getpid())}
+	}
 	sort.Strings(files)
 	for _, f := range files {
 		b, err := os.ReadFile(f)
@@ -506,59 +512,173 @@ func unsafeMethod(ep *config.EndpointConfig) bool {
 	return false
 }
 
-func main() {
-	cfg := out.ParseFlags("C03")
-	raceMode := cfg.Extra == "race"
-	if raceMode && !raceEnabled {
-		fmt.Fprintln(os.Stderr, "--extra race needs a binary built with -race")
-		os.Exit(2)
-	}
-	if raceMode && os.Getenv("C03_RACE_CHILD") == "" {
-		// a race-built binary exits with status 66 once a race was reported; the reports are
-		// turned into failing cases instead, so run the real work in a child with exitcode=0
-		var env []string
-		for _, e := range os.Environ() {
-			if !strings.HasPrefix(e, "GORACE=") {
-				env = append(env, e)
-			}
-		}
-		env = append(env, "GORACE="+os.Getenv("GORACE")+" exitcode=0", "C03_RACE_CHILD=1")
-		cmd := exec.Command(os.Args[0], os.Args[1:]...)
-		cmd.Env, cmd.Stdout, cmd.Stderr = env, os.Stdout, os.Stderr
-		if err := cmd.Run(); err != nil {
-			fmt.Fprintln(os.Stderr, "race child:", err)
-			if ee, ok := err.(*exec.ExitError); ok {
-				os.Exit(ee.ExitCode())
-			}
-			os.Exit(3)
-		}
-		return
-	}
+// one unit of work: a scenario of one of the three streams.  nominal = the number of cases
+// it yields when nothing interferes (0: the configuration is rejected by config.Init).
+type job struct {
+	kind    string // fresh | seq | conc
+	sc      scenario
+	nominal int
+}
+
+// what a worker process reports to the generator process, one JSON line each
+type record struct {
+	Job     int                    `json:"job"`
+	Kind    string                 `json:"kind"` // start | case | done
+	Term    string                 `json:"term,omitempty"`
+	JS      map[string]interface{} `json:"js,omitempty"`
+	Canon   string                 `json:"canon,omitempty"`
+	Nontriv bool                   `json:"nontriv,omitempty"`
+	Counts  []string               `json:"counts,omitempty"`
+	Reports int                    `json:"reports,omitempty"`
+}
+
+func allJobs(cfg out.Config, raceMode bool) []job {
 	r := rng.New(cfg.Seed)
-	w := out.NewWriter(cfg, "Verif.Corr.C03", 200)
-	rl := &raceLog{prefix: logPath(), offs: map[string]int64{}}
-	if raceMode && rl.prefix == "" {
-		fmt.Fprintln(os.Stderr, "GORACE log_path not set")
+	var jobs []job
+	nominal := func(sc scenario, n int) int {
+		if _, err := buildEndpoint(sc, -1); err != nil {
+			return 0
+		}
+		return n
+	}
+	for _, sc := range scenarios(cfg, r, raceMode) {
+		jobs = append(jobs, job{"fresh", sc, nominal(sc, 1)})
+	}
+	seqs, concs := reuseScenarios(cfg, r, raceMode)
+	for _, sc := range seqs {
+		jobs = append(jobs, job{"seq", sc, nominal(sc, len(sc.seq))})
+	}
+	for _, sc := range concs { // last: their case count is deterministic only without interference
+		jobs = append(jobs, job{"conc", sc, nominal(sc, len(sc.seq))})
+	}
+	return jobs
+}
+
+func canonOf(sc scenario, stream string, step int, rq reqSpec) string {
+	return fmt.Sprintf("%s|%s|%d|%s|%d|%v|%+v|%v|%v|%v|%v", sc.name, stream, step, sc.epMethod, sc.cc, sc.ccEach, describe(sc.bs), rq.hdr, rq.qry, rq.par, rq.body != nil)
+}
+
+// the statement excludes a body shared by shallow clones: never generate it
+func inScope(ep *config.EndpointConfig, rq reqSpec) reqSpec {
+	if rq.body != nil && len(ep.Backend) > 1 && !unsafeMethod(ep) {
+		rq.body = nil
+	}
+	return rq
+}
+
+func stepRequest(j job, step int) reqSpec {
+	if j.kind == "fresh" {
+		return j.sc.req
+	}
+	return j.sc.seq[step%len(j.sc.seq)]
+}
+
+// builds the record of one case
+func caseRecord(sc scenario, stream string, step int, ep *config.EndpointConfig, rq reqSpec, keep runResult, alone [][]sent, problems []string, reports []string, crash string) record {
+	n := len(ep.Backend)
+	if keep.timedOut || keep.panicked != "" {
+		problems = append(problems, fmt.Sprintf("fan-out: timeout=%v panic=%q", keep.timedOut, keep.panicked))
+	}
+	race := len(reports) > 0 || strings.Contains(crash, "concurrent map") || strings.Contains(crash, "DATA RACE")
+	var bl, ol []string
+	var bj, oj []interface{}
+	for k, be := range ep.Backend {
+		t, j := backendCoq(be, rq)
+		bl = append(bl, t)
+		bj = append(bj, j)
+		var fan, al []sent
+		if k < len(keep.sent) {
+			fan = keep.sent[k]
+		}
+		if k < len(alone) {
+			al = alone[k]
+		}
+		if len(problems) > 0 {
+			// a harness level problem must fail the case: make the observation unmatchable
+			fan = append(append([]sent(nil), fan...), sent{Method: "<harness problem: " + strings.Join(problems, "; ") + ">"})
+		}
+		ol = append(ol, emit.Pair(sentsCoq(fan), sentsCoq(al)))
+		oj = append(oj, map[string]interface{}{"fan_out": fan, "alone": al})
+	}
+	term := emit.App("Case", emit.List(bl), reqCoq(ep.Method, rq), emit.List(ol), emit.Bool(race),
+		emit.MultiMap(keep.afterHdr), emit.MultiMap(keep.afterQry), emit.StrMap(keep.afterPar))
+	var bodyJS interface{}
+	if rq.body != nil {
+		bodyJS = *rq.body
+	}
+	js := map[string]interface{}{"scenario": sc.name, "stream": stream, "step": step, "endpoint_method": ep.Method, "backends": bj,
+		"request": map[string]interface{}{"headers": rq.hdr, "query": rq.qry, "params": rq.par, "body": bodyJS},
+		"observed": map[string]interface{}{"per_backend": oj, "race_detector_reports_with_lura_frames": len(reports),
+			"client_headers_after": keep.afterHdr, "client_query_after": keep.afterQry, "client_params_after": keep.afterPar, "problems": problems}}
+	if len(reports) > 0 {
+		rep := reports[0]
+		if len(rep) > 6000 {
+			rep = rep[:6000]
+		}
+		js["first_race_report"] = rep
+	}
+	if crash != "" {
+		js["process_crashed_while_running_this_scenario"] = crash
+	}
+	counts := []string{"stream:" + stream, fmt.Sprintf("backends:%d", n), fmt.Sprintf("cc:%d", ep.Backend[0].ConcurrentCalls)}
+	if unsafeMethod(ep) {
+		counts = append(counts, "clone:deep")
+	} else if n > 1 {
+		counts = append(counts, "clone:shallow")
+	}
+	for _, b := range sc.bs {
+		switch {
+		case b.gql != nil && b.gql.get:
+			counts = append(counts, "kind:graphql-get")
+		case b.gql != nil:
+			counts = append(counts, "kind:graphql-post")
+		case len(b.hdrs)+len(b.qs) > 0:
+			counts = append(counts, "kind:filtered")
+		default:
+			counts = append(counts, "kind:plain")
+		}
+	}
+	if rq.body != nil {
+		counts = append(counts, "body:present")
+	}
+	if crash != "" {
+		counts = append(counts, "worker-crashed")
+	}
+	return record{Kind: "case", Term: term, JS: js, Canon: canonOf(sc, stream, step, rq), Nontriv: n > 1 || ep.Backend[0].ConcurrentCalls > 1, Counts: counts}
+}
+
+// ---------------------------------------------------------------- worker process
+
+// runs jobs[from:to) against the real code; every scenario is announced before it starts, so
+// that the generator process knows which one was in flight when this process dies of one of
+// Go's unrecoverable errors (concurrent map writes, ...).  upto >= 0 (replay of one step of a
+// sequence): run only steps 0..upto of the sequence.
+func worker(cfg out.Config, raceMode bool, from, to, upto int, outPath string) {
+	f, err := os.OpenFile(outPath, os.O_CREATE|os.O_WRONLY|os.O_APPEND, 0o644)
+	if err != nil {
+		fmt.Fprintln(os.Stderr, err)
 		os.Exit(2)
 	}
-	reps := 3 // a leak through a shared map shows only when the writer runs first: a few tries
-	if raceMode {
-		reps = 3
-		if cfg.Thorough() {
-			reps = 10
+	put := func(r record) {
+		b, err := json.Marshal(r)
+		if err != nil {
+			b, _ = json.Marshal(record{Job: r.Job, Kind: r.Kind, Term: r.Term, Canon: r.Canon, Counts: r.Counts, JS: map[string]interface{}{"marshal_error": err.Error()}})
 		}
+		f.Write(append(b, '\n')) // unbuffered: in the kernel before anything else happens
+	}
+	rl := &raceLog{prefix: logPath(), offs: map[string]int64{}, own: true}
+	reps := 3 // a leak through a shared map shows only when the writer runs first: a few tries
+	if raceMode && cfg.Thorough() {
+		reps = 10
 	}
 	raceReports := 0
-
-	canonOf := func(sc scenario, stream string, step int, rq reqSpec) string {
-		return fmt.Sprintf("%s|%s|%d|%s|%s|%d|%v|%+v|%v|%v|%v|%v", sc.name, stream, step, sc.name, sc.epMethod, sc.cc, sc.ccEach, describe(sc.bs), rq.hdr, rq.qry, rq.par, rq.body != nil)
-	}
-	// the statement excludes a body shared by shallow clones: never generate it
-	inScope := func(ep *config.EndpointConfig, rq reqSpec) reqSpec {
-		if rq.body != nil && len(ep.Backend) > 1 && !unsafeMethod(ep) {
-			rq.body = nil
+	freshReports := func() []string {
+		if !raceMode {
+			return nil
 		}
-		return rq
+		reports := rl.fresh()
+		raceReports += len(reports)
+		return reports
 	}
 	// alone: each backend as the only backend of a FRESH endpoint (the code is deterministic there)
 	observeAlone := func(sc scenario, n int, rq reqSpec) ([][]sent, []string) {
@@ -586,217 +706,295 @@ func main() {
 		}
 		return false
 	}
-	emitCase := func(sc scenario, stream string, step int, ep *config.EndpointConfig, rq reqSpec, keep runResult, alone [][]sent, problems []string, reports []string) {
-		n := len(ep.Backend)
-		if keep.timedOut || keep.panicked != "" {
-			problems = append(problems, fmt.Sprintf("fan-out: timeout=%v panic=%q", keep.timedOut, keep.panicked))
-		}
-		race := len(reports) > 0
-		var bl, ol []string
-		var bj, oj []interface{}
-		for k, be := range ep.Backend {
-			t, j := backendCoq(be, rq)
-			bl = append(bl, t)
-			bj = append(bj, j)
-			fan := keep.sent[k]
-			if len(problems) > 0 {
-				// a harness level problem must fail the case: make the observation unmatchable
-				fan = append(append([]sent(nil), fan...), sent{Method: "<harness problem: " + strings.Join(problems, "; ") + ">"})
-			}
-			ol = append(ol, emit.Pair(sentsCoq(fan), sentsCoq(alone[k])))
-			oj = append(oj, map[string]interface{}{"fan_out": fan, "alone": alone[k]})
-		}
-		term := emit.App("Case", emit.List(bl), reqCoq(ep.Method, rq), emit.List(ol), emit.Bool(race),
-			emit.MultiMap(keep.afterHdr), emit.MultiMap(keep.afterQry), emit.StrMap(keep.afterPar))
-		var bodyJS interface{}
-		if rq.body != nil {
-			bodyJS = *rq.body
-		}
-		js := map[string]interface{}{"scenario": sc.name, "stream": stream, "step": step, "endpoint_method": ep.Method, "backends": bj,
-			"request": map[string]interface{}{"headers": rq.hdr, "query": rq.qry, "params": rq.par, "body": bodyJS},
-			"observed": map[string]interface{}{"per_backend": oj, "race_detector_reports_with_lura_frames": len(reports),
-				"client_headers_after": keep.afterHdr, "client_query_after": keep.afterQry, "client_params_after": keep.afterPar, "problems": problems}}
-		if race {
-			rep := reports[0]
-			if len(rep) > 6000 {
-				rep = rep[:6000]
-			}
-			js["first_race_report"] = rep
-		}
-		w.Count("stream:" + stream)
-		w.Count(fmt.Sprintf("backends:%d", n))
-		w.Count(fmt.Sprintf("cc:%d", ep.Backend[0].ConcurrentCalls))
-		if unsafeMethod(ep) {
-			w.Count("clone:deep")
-		} else if n > 1 {
-			w.Count("clone:shallow")
-		}
-		for _, b := range sc.bs {
-			switch {
-			case b.gql != nil && b.gql.get:
-				w.Count("kind:graphql-get")
-			case b.gql != nil:
-				w.Count("kind:graphql-post")
-			case len(b.hdrs)+len(b.qs) > 0:
-				w.Count("kind:filtered")
-			default:
-				w.Count("kind:plain")
-			}
-		}
-		if rq.body != nil {
-			w.Count("body:present")
-		}
-		w.Add(term, js, "", canonOf(sc, stream, step, rq), n > 1 || ep.Backend[0].ConcurrentCalls > 1)
-	}
-	freshReports := func() []string {
-		if !raceMode {
-			return nil
-		}
-		reports := rl.fresh()
-		raceReports += len(reports)
-		return reports
-	}
-
-	// ---- one fresh instance per request (the original streams)
-	runCase := func(sc scenario) {
+	jobs := allJobs(cfg, raceMode)
+	for ji := from; ji < to && ji < len(jobs); ji++ {
+		j := jobs[ji]
+		sc := j.sc
+		put(record{Job: ji, Kind: "start"})
 		ep, err := buildEndpoint(sc, -1)
 		if err != nil {
-			w.Count("rejected-by-config")
-			return
+			put(record{Job: ji, Kind: "done"})
+			continue
 		}
-		rq := inScope(ep, sc.req)
-		if cfg.Only >= 0 && w.N() != cfg.Only {
-			w.Add("", nil, "", canonOf(sc, "fresh", 0, rq), false) // replay of another index: keep the numbering, run nothing
-			return
-		}
-		alone, problems := observeAlone(sc, len(ep.Backend), rq)
-		// fan-out, repeated; keep the first run in which some backend was sent something else
-		// than alone (else the first)
-		var keep *runResult
-		for i := 0; i < reps; i++ {
-			rr := runEndpoint(ep, rq)
-			d := differs(rr, alone)
-			if keep == nil || d {
-				c := rr
-				keep = &c
-			}
-			if d {
-				break
-			}
-		}
-		emitCase(sc, "fresh", 0, ep, rq, *keep, alone, problems, freshReports())
-	}
-
-	// ---- sequential reuse: ONE instance serves the whole sequence sc.seq, every step is a case.
-	// Replay (--only idx) re-runs the sequence from its start up to idx.
-	runSeq := func(sc scenario) {
-		ep, err := buildEndpoint(sc, -1)
-		if err != nil {
-			w.Count("rejected-by-config")
-			return
-		}
-		start, L := w.N(), len(sc.seq)
-		skipAll := cfg.Only >= 0 && (cfg.Only < start || cfg.Only >= start+L)
-		var inst *instance
-		if !skipAll {
-			inst = newInstance(ep)
-		}
-		for i, rq0 := range sc.seq {
-			rq := inScope(ep, rq0)
-			if skipAll || (cfg.Only >= 0 && start+i > cfg.Only) {
-				w.Add("", nil, "", canonOf(sc, "reuse-seq", i, rq), false)
-				continue
-			}
-			rr := inst.call(rq, true)
-			if cfg.Only >= 0 && start+i != cfg.Only {
-				w.Add("", nil, "", canonOf(sc, "reuse-seq", i, rq), false)
-				continue
-			}
+		emitRec := func(r record) { r.Job = ji; put(r) }
+		switch j.kind {
+		case "fresh": // one fresh instance per request
+			rq := inScope(ep, sc.req)
 			alone, problems := observeAlone(sc, len(ep.Backend), rq)
-			emitCase(sc, "reuse-seq", i, ep, rq, rr, alone, problems, freshReports())
-		}
-	}
-
-	// ---- concurrent reuse: ONE instance hit by many goroutines released together, a few
-	// distinct requests; every DISTINCT (request, observation) pair is one case, so a run
-	// without interference yields exactly one case per distinct request.
-	runConc := func(sc scenario) {
-		ep, err := buildEndpoint(sc, -1)
-		if err != nil {
-			w.Count("rejected-by-config")
-			return
-		}
-		start, L := w.N(), len(sc.seq)
-		inputs := make([]reqSpec, L)
-		for i, rq0 := range sc.seq {
-			inputs[i] = inScope(ep, rq0)
-		}
-		if cfg.Only >= 0 && cfg.Only < start {
-			for i := range inputs {
-				w.Add("", nil, "", canonOf(sc, "reuse-conc", i, inputs[i]), false)
-			}
-			return
-		}
-		alone := make([][][]sent, L)
-		probs := make([][]string, L)
-		for i := range inputs {
-			alone[i], probs[i] = observeAlone(sc, len(ep.Backend), inputs[i])
-		}
-		freshReports() // reports so far belong to the solo runs above (none expected)
-		inst := newInstance(ep)
-		const G, iters = 12, 6
-		type obs struct {
-			in int
-			rr runResult
-		}
-		var mu sync.Mutex
-		seen := map[string]obs{}
-		gate := make(chan struct{})
-		var wg sync.WaitGroup
-		for g := 0; g < G; g++ {
-			wg.Add(1)
-			go func(g int) {
-				defer wg.Done()
-				<-gate
-				for j := 0; j < iters; j++ {
-					in := (g + j) % L
-					rr := inst.call(inputs[in], false)
-					k := fmt.Sprintf("%03d|%s", in, rr.key())
-					mu.Lock()
-					if _, ok := seen[k]; !ok {
-						seen[k] = obs{in, rr}
-					}
-					mu.Unlock()
+			// fan-out, repeated; keep the first run in which some backend was sent something
+			// else than alone (else the first)
+			var keep *runResult
+			for i := 0; i < reps; i++ {
+				rr := runEndpoint(ep, rq)
+				d := differs(rr, alone)
+				if keep == nil || d {
+					c := rr
+					keep = &c
 				}
-			}(g)
+				if d {
+					break
+				}
+			}
+			emitRec(caseRecord(sc, "fresh", 0, ep, rq, *keep, alone, problems, freshReports(), ""))
+		case "seq": // sequential reuse: ONE instance serves the whole sequence, every step is a case
+			inst := newInstance(ep)
+			for i, rq0 := range sc.seq {
+				if upto >= 0 && i > upto {
+					break
+				}
+				rq := inScope(ep, rq0)
+				rr := inst.call(rq, true)
+				alone, problems := observeAlone(sc, len(ep.Backend), rq)
+				emitRec(caseRecord(sc, "reuse-seq", i, ep, rq, rr, alone, problems, freshReports(), ""))
+			}
+		case "conc":
+			// concurrent reuse: ONE instance hit by many goroutines released together, a few
+			// distinct requests; every DISTINCT (request, observation) pair is one case, so a run
+			// without interference yields exactly one case per distinct request
+			L := len(sc.seq)
+			inputs := make([]reqSpec, L)
+			alone := make([][][]sent, L)
+			probs := make([][]string, L)
+			for i, rq0 := range sc.seq {
+				inputs[i] = inScope(ep, rq0)
+				alone[i], probs[i] = observeAlone(sc, len(ep.Backend), inputs[i])
+			}
+			freshReports() // reports so far belong to the solo runs above (none expected)
+			inst := newInstance(ep)
+			const G, iters = 12, 6
+			type obs struct {
+				in int
+				rr runResult
+			}
+			var mu sync.Mutex
+			seen := map[string]obs{}
+			gate := make(chan struct{})
+			var wg sync.WaitGroup
+			for g := 0; g < G; g++ {
+				wg.Add(1)
+				go func(g int) {
+					defer wg.Done()
+					<-gate
+					for it := 0; it < iters; it++ {
+						in := (g + it) % L
+						rr := inst.call(inputs[in], false)
+						k := fmt.Sprintf("%03d|%s", in, rr.key())
+						mu.Lock()
+						if _, ok := seen[k]; !ok {
+							seen[k] = obs{in, rr}
+						}
+						mu.Unlock()
+					}
+				}(g)
+			}
+			close(gate)
+			wg.Wait()
+			reports := freshReports()
+			keys := make([]string, 0, len(seen))
+			for k := range seen {
+				keys = append(keys, k)
+			}
+			sort.Strings(keys)
+			for _, k := range keys {
+				o := seen[k]
+				emitRec(caseRecord(sc, "reuse-conc", o.in, ep, inputs[o.in], o.rr, alone[o.in], probs[o.in], reports, ""))
+			}
 		}
-		close(gate)
-		wg.Wait()
-		reports := freshReports()
-		keys := make([]string, 0, len(seen))
-		for k := range seen {
-			keys = append(keys, k)
-		}
-		sort.Strings(keys)
-		for _, k := range keys {
-			o := seen[k]
-			emitCase(sc, "reuse-conc", o.in, ep, inputs[o.in], o.rr, alone[o.in], probs[o.in], reports)
-		}
+		put(record{Job: ji, Kind: "done", Reports: raceReports})
+		raceReports = 0
+	}
+	f.Close()
+}
+
+// ---------------------------------------------------------------- generator process
+
+type tailBuf struct {
+	mu  sync.Mutex
+	buf []byte
+}
+
+func (t *tailBuf) Write(p []byte) (int, error) {
+	t.mu.Lock()
+	defer t.mu.Unlock()
+	if len(t.buf) < 1<<16 { // the head of a crash dump names the error and the first goroutines
+		t.buf = append(t.buf, p...)
+	}
+	return len(p), nil
+}
+
+func main() {
+	cfg := out.ParseFlags("C03")
+	raceMode := cfg.Extra == "race"
+	if raceMode && !raceEnabled {
+		fmt.Fprintln(os.Stderr, "--extra race needs a binary built with -race")
+		os.Exit(2)
+	}
+	if raceMode && logPath() == "" {
+		fmt.Fprintln(os.Stderr, "GORACE log_path not set")
+		os.Exit(2)
+	}
+	if spec := os.Getenv("C03_WORKER"); spec != "" {
+		var from, to, upto int
+		fmt.Sscanf(spec, "%d:%d:%d", &from, &to, &upto)
+		worker(cfg, raceMode, from, to, upto, os.Getenv("C03_WORKER_OUT"))
+		return
 	}
 
-	for _, sc := range scenarios(cfg, r, raceMode) {
-		runCase(sc)
+	// The real code runs in worker processes only (one batch of scenarios per worker): a worker
+	// killed by one of Go's unrecoverable runtime errors becomes failing case(s) of the scenario
+	// in flight, and the next worker goes on behind it.
+	w := out.NewWriter(cfg, "Verif.Corr.C03", 200)
+	jobs := allJobs(cfg, raceMode)
+	starts := make([]int, len(jobs)+1)
+	for i, j := range jobs {
+		starts[i+1] = starts[i] + j.nominal
 	}
-	seqs, concs := reuseScenarios(cfg, r, raceMode)
-	for _, sc := range seqs {
-		runSeq(sc)
+	var env []string
+	for _, e := range os.Environ() {
+		if !strings.HasPrefix(e, "GORACE=") && !strings.HasPrefix(e, "C03_WORKER") {
+			env = append(env, e)
+		}
 	}
-	for _, sc := range concs { // last: their case count is deterministic only without interference
-		runConc(sc)
+	if raceMode {
+		// a race-built binary exits with status 66 once a race was reported; the reports are
+		// turned into failing cases instead
+		env = append(env, "GORACE="+os.Getenv("GORACE")+" exitcode=0")
+	}
+	workers, crashes, raceReports := 0, 0, 0
+	runWorker := func(from, to, upto int) ([]record, string) {
+		workers++
+		outPath := filepath.Join(cfg.Dir, fmt.Sprintf("worker_%04d.jsonl", workers))
+		os.Remove(outPath)
+		cmd := exec.Command(os.Args[0], os.Args[1:]...)
+		cmd.Env = append(append([]string(nil), env...), fmt.Sprintf("C03_WORKER=%d:%d:%d", from, to, upto), "C03_WORKER_OUT="+outPath)
+		tb := &tailBuf{}
+		cmd.Stdout, cmd.Stderr = tb, tb
+		runErr := cmd.Run()
+		var recs []record
+		if f, err := os.Open(outPath); err == nil {
+			sc := bufio.NewScanner(f)
+			sc.Buffer(make([]byte, 1<<20), 1<<28)
+			for sc.Scan() {
+				var r record
+				if json.Unmarshal(sc.Bytes(), &r) == nil && r.Kind != "" {
+					recs = append(recs, r)
+				}
+			}
+			f.Close()
+		}
+		os.Remove(outPath)
+		crash := ""
+		if runErr != nil {
+			crash = fmt.Sprintf("worker process: %v\n%s", runErr, string(tb.buf))
+			if len(crash) > 8000 {
+				crash = crash[:8000]
+			}
+		}
+		return recs, crash
+	}
+	apply := func(r record) {
+		for _, c := range r.Counts {
+			w.Count(c)
+		}
+		w.Add(r.Term, r.JS, "", r.Canon, r.Nontriv)
+	}
+	// cases standing for a scenario whose worker died: the request it was processing (and the
+	// steps of its sequence that could not run any more)
+	crashCases := func(ji, emitted int, crash string) {
+		j := jobs[ji]
+		ep, err := buildEndpoint(j.sc, -1)
+		if err != nil {
+			return
+		}
+		stream := map[string]string{"fresh": "fresh", "seq": "reuse-seq", "conc": "reuse-conc"}[j.kind]
+		n := j.nominal - emitted
+		if n < 1 {
+			n = 1
+		}
+		for k := 0; k < n; k++ {
+			step := emitted + k
+			rq := inScope(ep, stepRequest(j, step))
+			text := crash
+			if k > 0 && j.kind == "seq" {
+				text = "step not run: the process died at an earlier step of this sequence\n" + crash
+			}
+			apply(caseRecord(j.sc, stream, step, ep, rq, runResult{sent: make([][]sent, len(ep.Backend))}, make([][]sent, len(ep.Backend)),
+				[]string{"the process running this scenario died"}, nil, text))
+		}
+	}
+	pad := func(ji int) {
+		for k := 0; k < jobs[ji].nominal; k++ {
+			w.Add("", nil, "", fmt.Sprintf("skipped|%d|%d", ji, k), false)
+		}
+	}
+	batch := 400
+	for i := 0; i < len(jobs); {
+		upto := -1
+		to := i + batch
+		if to > len(jobs) {
+			to = len(jobs)
+		}
+		if cfg.Only >= 0 { // replay: only the scenario that produced that index
+			last := i == len(jobs)-1
+			if !(starts[i] <= cfg.Only && (cfg.Only < starts[i+1] || last)) || jobs[i].nominal == 0 {
+				pad(i)
+				i++
+				continue
+			}
+			to = i + 1
+			if jobs[i].kind == "seq" {
+				upto = cfg.Only - starts[i]
+			}
+		}
+		recs, crash := runWorker(i, to, upto)
+		emitted := map[int]int{}
+		started, done := -1, map[int]bool{}
+		for _, r := range recs {
+			switch r.Kind {
+			case "start":
+				started = r.Job
+			case "case":
+				apply(r)
+				emitted[r.Job]++
+			case "done":
+				done[r.Job] = true
+				raceReports += r.Reports
+			}
+		}
+		switch {
+		case started >= 0 && !done[started]: // died inside a scenario
+			crashes++
+			if crash == "" {
+				crash = "worker process ended without finishing this scenario"
+			}
+			crashCases(started, emitted[started], crash)
+			i = started + 1
+		case started < to-1: // ended between scenarios without a reason: treat the next one as in flight
+			crashes++
+			nxt := started + 1
+			if nxt < i {
+				nxt = i
+			}
+			crashCases(nxt, 0, "worker process ended before this scenario: "+crash)
+			i = nxt + 1
+		default:
+			if cfg.Only >= 0 && upto >= 0 { // steps after the replayed one
+				for k := emitted[i]; k < jobs[i].nominal; k++ {
+					w.Add("", nil, "", fmt.Sprintf("skipped|%d|%d", i, k), false)
+				}
+			}
+			i = to
+		}
+	}
+	reps := 3
+	if raceMode && cfg.Thorough() {
+		reps = 10
 	}
 	w.Meta["race_mode"] = raceMode
 	w.Meta["fan_out_repetitions"] = reps
 	w.Meta["race_reports_with_lura_frames"] = raceReports
+	w.Meta["worker_processes"] = workers
+	w.Meta["worker_crashes"] = crashes
 	w.Close("regression corpus (GraphQL next to plain/filtered siblings, GET and POST endpoints, concurrent calls 2..3, mutation with invalid body) -> all ordered pairs of 20 backend shapes (methods GET/HEAD/POST/PUT/OPTIONS/TRACE/PATCH/PURGE, lower and mixed case spellings) x concurrent_calls 1..2 x 2 client requests, all singles x cc 1..3 -> random endpoints of 1..4 backends with random filter lists (0..3 names), GraphQL options, methods, per-backend concurrent_calls 1..3, random client headers/query/params/body -> instance reuse: one factory-built endpoint proxy serving a sequence of 4..5 different requests (each step a case; corpus orders + random endpoints) and the same instance hit by 12 goroutines x 6 iterations over 4 distinct requests (one case per distinct request/observation); every scenario is run as fan-out (stub executors meet at a barrier) and per backend alone; nontrivial = more than one backend or concurrent_calls > 1", false)
 }
 
